@@ -12,6 +12,7 @@ import signal
 import sys
 import time
 import traceback
+import warnings
 
 
 class CpuTimeout(BaseException):
@@ -67,7 +68,6 @@ def rss_kb():
 
 def main():
     import logging
-    import warnings
 
     logging.disable(logging.CRITICAL)
     warnings.simplefilter("ignore")
@@ -103,12 +103,14 @@ def main():
         fn = {"load": trimesh.load, "load_mesh": trimesh.load_mesh, "load_scene": trimesh.load_scene, "load_path": trimesh.load_path}[entry]
         path = None
         res = {"n": len(data)}
-        gc.collect()
         before = fds()
         peak_reset()
         rss0 = rss_kb()
         t0 = time.process_time()
         result = None
+        wrec = warnings.catch_warnings(record=True)
+        wlist = wrec.__enter__()
+        warnings.simplefilter("always", ResourceWarning)
         try:
             signal.setitimer(signal.ITIMER_VIRTUAL, budget)
             try:
@@ -145,6 +147,14 @@ def main():
         # drop the result, then look at the descriptor table: nothing the loader opened may still be open
         result = None
         after = fds()
+        # a file object that is only closed because it was garbage collected announces itself with a ResourceWarning
+        # (the loader only opens files itself when it is given a path)
+        if case["via_path"]:
+            gc.collect()
+        wrec.__exit__(None, None, None)
+        rw = [str(w.message)[:160] for w in wlist if issubclass(w.category, ResourceWarning) and "unclosed file" in str(w.message)]
+        if rw:
+            res["resource_warnings"] = rw[:3]
         leak = sorted(t for k, t in after.items() if k not in before and not t.startswith(("pipe:", "anon_inode:", "socket:", "/dev/")) and "/proc/" not in t)
         if leak:
             gc.collect()
